@@ -215,8 +215,15 @@ def Line.expected (l : Line) : Form :=
 
 /-! ### files (declarative) -/
 
-/-- `lines` is the split of `content` at line feeds -/
+/-- lines joined by single line feeds -/
+def joinLines : List Txt → Txt
+  | [] => []
+  | [l] => l
+  | l :: ls => l ++ 10 :: joinLines ls
+
+/-- `lines` are *the* lines of `content`: joining them with line feeds gives the content back and
+    no line contains a line feed (this determines `lines`, see `Props.C09.split_unique`) -/
 def IsSplit (content : Txt) (lines : List Txt) : Prop :=
-  (∀ l ∈ lines, 10 ∉ l) ∧ lines ≠ [] ∧ content = (lines.intersperse [10]).flatten
+  lines ≠ [] ∧ (∀ l ∈ lines, 10 ∉ l) ∧ joinLines lines = content
 
 end OsacaVerif.Spec.X86R
